@@ -29,6 +29,7 @@
 #include "glue.hpp"
 
 #include <csetjmp>
+#include <sanitizer/asan_interface.h>
 #include <csignal>
 #include <unistd.h>
 #include <string>
@@ -38,6 +39,7 @@
 #include <map>
 #include <set>
 #include <algorithm>
+#include <functional>
 
 namespace c20 {
 
@@ -72,6 +74,29 @@ inline void installHandlers() {
     for (int s : { SIGSEGV, SIGBUS, SIGFPE, SIGALRM }) sigaction(s, &sa, nullptr);
 }
 
+
+// ------------------------------------------------------------------------------------------------ guarded manager
+// SimMemoryManager with a poisoned guard zone on both sides of every block.  A container that hands out an element
+// just outside one of its blocks (back() of an empty block, index one past the end) then produces the same
+// AddressSanitizer report (use-after-poison) whatever happens to lie next to the block, which keeps such findings
+// reproducible in a fresh process.
+struct GuardedMM : public SimMemoryManager {
+    enum { G = 64 };
+    void* allocate(XMLSize_t size) override {
+        char* p = (char*)SimMemoryManager::allocate(size + 2 * G);
+        ASAN_POISON_MEMORY_REGION(p, G); ASAN_POISON_MEMORY_REGION(p + G + size, G);
+        return p + G;
+    }
+    void deallocate(void* q) override {
+        if (!q) return;
+        char* p = (char*)q - G;
+        auto it = table.find(p);
+        if (it != table.end() && it->second.live) ASAN_UNPOISON_MEMORY_REGION(p, it->second.size);
+        SimMemoryManager::deallocate(it != table.end() ? (void*)p : q);
+    }
+    ~GuardedMM() { for (auto& kv : table) if (kv.second.live) ASAN_UNPOISON_MEMORY_REGION(kv.first, kv.second.size); }
+};
+
 // ------------------------------------------------------------------------------------------------ small helpers
 inline std::string show(const std::vector<int>& v) {
     std::string r = "["; size_t n = v.size() > 24 ? 24 : v.size();
@@ -95,6 +120,9 @@ inline uint64_t hashMap(const std::map<int, int>& m) { uint64_t h = 0xcbf29ce484
 inline uint64_t hashStr(const std::u16string& s) { return sim::fnv1a(s.data(), s.size() * sizeof(char16_t)); }
 inline std::string h16(uint64_t h) { char b[12]; snprintf(b, sizeof b, "%04x", (unsigned)(h & 0xffff) ^ (unsigned)((h >> 16) & 0xffff)); return b; }
 
+inline Json jsonInts(const std::vector<int>& v) { Json a = Json::array(); for (int x : v) a.push(x); return a; }
+inline Json jsonMap(const std::map<int, int>& m) { Json a = Json::array(); for (auto& kv : m) { a.push(kv.first); a.push(kv.second); } return a; }
+inline Json jsonStr(const std::u16string& s) { Json a = Json::array(); for (char16_t c : s) a.push((int)c); return a; }
 inline bool isPrefix(const std::vector<int>& p, const std::vector<int>& s) { return p.size() <= s.size() && std::equal(p.begin(), p.end(), s.begin()); }
 
 // text of element id: 0 is the default-constructed (empty) string
@@ -185,7 +213,7 @@ namespace c20 {
 enum Shape { ATOMIC, APPEND, TRUNC, REFILL, MIXED };
 
 struct Run {
-    SimMemoryManager mm;
+    GuardedMM mm;
     Result& res; Trace& tr; const Json& plan;
     bool modeB = false;
     std::string cont, elem;
@@ -193,6 +221,9 @@ struct Run {
     size_t opIdx = 0; const Json* op = nullptr; std::string kind, phase, stateClass, family, directOp;
     bool fired = false, threw = false, stop = false, mismatched = false, poisoned = false;
     int anomalies = 0;
+    bool opChanged = false; std::vector<size_t> noEffect;
+    std::function<Json()> snapshot;                         // models of the run as a "force_state" operation (attribution pass)
+    std::vector<std::pair<size_t, Json> > forced;           // faulted operations that changed something: index -> state they left   // faulted operations that left every container unchanged (attribution pass drops them)
     std::string lastFaultFamily; size_t lastFaultOp = 0;
     long liveBias = 0, extraLive = 0;                       // extraLive: counting elements inside temporaries the harness holds during this op
     const char* apiClass = ""; const char* apiMethods = "";   // who the harness calls directly (assert attribution)
@@ -209,7 +240,15 @@ struct Run {
         return r;
     }
     std::string where() const { return "op#" + std::to_string(opIdx) + " " + kind + " [" + stateClass + "]"; }
-    void mismatch(const std::string& what, const std::string& detail) { mismatched = true; ++anomalies; res.violate("model-mismatch", cont + ":" + kind, where() + ": " + what + ": " + detail); }
+    // A finding that does not involve a fault in the current operation.  In a history in which an allocation was refused
+    // EARLIER it may still be a late consequence of that refusal: it is remembered as a suspect, and the driver decides
+    // afterwards by executing the same history without faults (fault-free and fault-injecting findings stay apart).
+    std::vector<std::pair<std::string, std::string> > suspects;
+    void ordinary(const std::string& cls, const std::string& sig, const std::string& detail) {
+        if (mm.refused && !fired) suspects.emplace_back(cls, sig);
+        res.violate(cls, sig, detail);
+    }
+    void mismatch(const std::string& what, const std::string& detail) { mismatched = true; ++anomalies; ordinary("model-mismatch", cont + ":" + kind, where() + ": " + what + ": " + detail); }
     // After a refused allocation left the container in an inadmissible state the history ends: everything that
     // follows would only be a consequence.  The signature names the operation family, not the symptom.
     void corrupt(const std::string& what, const std::string& detail) {
@@ -218,19 +257,13 @@ struct Run {
     }
     // an observable is wrong: attribute to the fault if one fired in this op, otherwise it is a plain model mismatch
     void bad(const std::string& what, const std::string& detail) { if (fired) corrupt(what, detail); else mismatch(what, detail); }
-    // element construction/destruction anomalies.  In a history in which an allocation has been refused earlier they
-    // are the late symptom of that failure (fault-injecting and fault-free findings are kept apart).
     // the container's own observables contradict each other (after the model has been re-synchronised from it):
     // nothing that follows in this history would be meaningful
     void inconsistent(const std::string& what, const std::string& detail) { bad(what, detail); stop = poisoned = true; }
+    // element construction/destruction anomalies
     void lifetime(const std::string& what, const std::string& detail) {
         ++anomalies;
-        if (fired) corrupt(what, detail);
-        else if (mm.refused) {
-            res.violate("fault-corrupts-container", cont + ":" + lastFaultFamily + ":latent", where() + ": " + what + ": " + detail + " (surfaced after the refused allocation in op#" + std::to_string(lastFaultOp) + ")");
-            stop = poisoned = true;
-        }
-        else res.violate("element-lifetime", cont + ":" + kind + ":" + what, where() + ": " + detail);
+        if (fired) corrupt(what, detail); else ordinary("element-lifetime", cont + ":" + kind + ":" + what, where() + ": " + detail);
     }
     void harness(const std::string& d) { if (res.status != "harness-error") res.harness(where() + ": " + d); stop = true; }
     bool need(bool c, const char* what) { if (!c) harness(std::string("generator/interpreter precondition broken: ") + what); return c; }
@@ -279,6 +312,7 @@ struct Run {
             if (!acceptSeq(model, post, S, sh, oc)) corrupt("state", std::string(which) + " is " + show(S) + "; before " + show(model) + ", intended " + show(post));
             if (which[0] == 'A') res.count("fault-state:" + oc + (oc == "mixed" ? ":" + cont + ":" + family : ""));
         }
+        if (S != model) opChanged = true;
         model = S;
     }
     void checkCounted(long expected) {
@@ -291,6 +325,8 @@ struct Run {
         }
     }
     void finishOp(size_t size, uint64_t contentHash) {
+        if (fired && !opChanged) noEffect.push_back(opIdx);
+        else if (fired && snapshot) forced.emplace_back(opIdx, snapshot());
         res.count("op:" + cont + ":" + kind);
         res.tag(cont + "|" + kind + "|" + stateClass);
         tr.ev(kind + (fired ? (threw ? " F!" : " F~") : "") + " n=" + std::to_string(size) + " h=" + h16(contentHash));
